@@ -173,7 +173,12 @@ fn model_for(occ: &[(char, String)], r: &mut Rng) -> Model {
 
 fn check_case(out: &mut Out, ast: &Ast, mode: Parens, r: &mut Rng) {
     let toks = render_ast(ast, mode, Some(r), true);
-    let src = render_spaced(&toks);
+    // mostly single-spaced; now and then tight or under a random separator plan (comments, Unicode whitespace)
+    let src = match r.below(8) {
+        0 => crate::gen::render_tight(&toks),
+        1 => crate::gen::render_with_plan(&toks, r, true).unwrap_or_else(|| render_spaced(&toks)),
+        _ => render_spaced(&toks),
+    };
     out.begin(|| src.clone());
     let tree = match api::build(&src) {
         Built::Tree(t) => t,
@@ -392,7 +397,7 @@ impl Phase for Random {
         let depth = r.range(1, 12);
         let distinct = r.chance(1, 2);
         let ast = {
-            let vars = ["a", "b", "c", "x", "f", "g", "total"];
+            let vars = ["a", "b", "c", "x", "f", "g", "total", "ī", "нx", "ȫ", "ш", "a.b", "x'", "#q"];
             let funs = ["f", "g", "h", "max", "len", "math::clamp", "str::nope", "ns::f", "math::len", "a::b::c", "a", "total"];
             let mut g = AstGen {
                 r,
